@@ -22,7 +22,10 @@ import itertools
 import math
 from fractions import Fraction as F
 
-import numpy as np
+import os
+for _v in ('OMP_NUM_THREADS', 'OPENBLAS_NUM_THREADS', 'MKL_NUM_THREADS'):
+    os.environ.setdefault(_v, '2')   # small matrices only: BLAS threading is pure overhead here
+import numpy as np  # noqa: E402
 
 from common import Stream, budget, rng_for, show
 
